@@ -1109,6 +1109,54 @@ func (an *shapeAn) describe(fs *factSet) string {
 
 func (an *shapeAn) checkAssert(sf *symFn, x *ssa.TypeAssert, pc *Sym, chain string) {
 	if !isTreeType(x.X.Type()) && !isTreeType(x.AssertedType) {
+		// a node of go/ast's syntax tree: an interface (Expr, Stmt, Spec, Decl, Node) has many node kinds behind it, and no
+		// grammar of ours says which; an assertion without a comma-ok form is decided only when the same operand was tested
+		// for that type on the path
+		if pk, n := namedTypeName(x.X.Type()); pk == "go/ast" {
+			_, toIface := x.AssertedType.Underlying().(*types.Interface)
+			if _, isIface := x.X.Type().Underlying().(*types.Interface); isIface && !toIface {
+				an.nOps++
+				t := sf.val(x.X)
+				// one obligation per site (the walk reaches a helper once per caller): the n-th unchecked assertion of the function
+				ord := 0
+				for _, bb := range x.Parent().Blocks {
+					for _, ii := range bb.Instrs {
+						if ta, ok := ii.(*ssa.TypeAssert); ok && !ta.CommaOk {
+							ord++
+							if ta == x {
+								goto found
+							}
+						}
+					}
+				}
+			found:
+				construct := fmt.Sprintf("assert:%s #%d .(%s)", an.p.FuncKey(x.Parent()), ord, ctxTypeName(x.AssertedType))
+				pos := an.p.InstrPos(x)
+				tested := false
+				want := "assert:" + types.TypeString(x.AssertedType, func(p *types.Package) string { return p.Name() })
+				pc.walk(func(y *Sym) {
+					if y.Op == "call" && strings.HasPrefix(y.Name, "assert:") && strings.Contains(y.String(), t.String()) && strings.HasPrefix(y.Name, want) {
+						tested = true
+					}
+				})
+				// the reflective spelling: reflect.TypeOf(x).String() == "*ast.FuncLit"
+				lit := "\"" + types.TypeString(x.AssertedType, func(p *types.Package) string { return p.Name() }) + "\""
+				pc.walk(func(y *Sym) {
+					if y.Op == "bin" && y.Name == "==" && len(y.Kids) == 2 {
+						for i := 0; i < 2; i++ {
+							if y.Kids[i].String() == lit && strings.Contains(y.Kids[1-i].String(), "reflect.TypeOf") {
+								tested = true
+							}
+						}
+					}
+				})
+				if tested {
+					an.ob("E2.type-assertion", construct, Discharged, "the operand was tested for this type on the path", pos, true)
+				} else {
+					an.ob("E2.type-assertion", construct, Violated, "unchecked type assertion can panic: a go/ast."+n+" can be any of the node kinds that implement it, and nothing on the path tests for "+ctxTypeName(x.AssertedType)+" ["+chain+"]", pos, false)
+				}
+			}
+		}
 		return
 	}
 	an.nOps++
@@ -1799,6 +1847,27 @@ func (an *shapeAn) checkIndex(sf *symFn, xv, iv ssa.Value, at ssa.Instruction, p
 	an.nOps++
 	construct := "index:" + an.p.FuncKey(sf.fn) + " " + clip(base.String(), 140) + "[" + clip(idx.String(), 60) + "]"
 	pos := an.p.InstrPos(at)
+	// a list made right here with a length: make([]T, 2+len(keys)) holds at least two elements
+	if ms, ok := xv.(*ssa.MakeSlice); ok {
+		var lower func(t *Sym) int64
+		lower = func(t *Sym) int64 {
+			if c, ok := symIntC(t); ok {
+				return c
+			}
+			if t.Op == "bin" && t.Name == "+" && len(t.Kids) == 2 {
+				return lower(t.Kids[0]) + lower(t.Kids[1])
+			}
+			return 0 // a length, or anything else that is not negative in a make that succeeded
+		}
+		if c, ok := symIntC(idx); ok {
+			if c+1 <= lower(sf.val(ms.Len)) {
+				an.ob("E2.index-bound", construct, Discharged, "the list is made with a length that covers the index", pos, false)
+			} else {
+				an.ob("E2.index-bound", construct, Note, "the list is made with a computed length; not decided", pos, false)
+			}
+			return
+		}
+	}
 	bad := ""
 	decidedAll := true
 	for _, inst := range constArrayInstances(idx, base, pc) {
